@@ -45,6 +45,27 @@ def gen(ctx):
         t = rand_string(rng, L=L)
         yield dict(kind="J", x=s, y=t)
         yield dict(kind="MI", x=s, y=rng.choice([t, s, s[::-1]]))
+    for _ in range(ctx.n(120, 1200)):
+        # two cells with different state sequences but the same concatenated printed form
+        # (e.g. 1,1,10 vs 11,1,0 ; -1,1 vs -11 ; 1,0 vs 10): states must be symbols, not character streams
+        pieces = rng.choice([[("1", "1", "10"), ("11", "1", "0")], [("1", "0", "1"), ("10", "1", "")], [("2", "21", "1"), ("22", "1", "1")],
+                             [("1", "-1", "1"), ("1", "-11", "")], [("12", "1", "2"), ("1", "21", "2")]])
+        a = [int(x) for x in pieces[0] if x != ""]
+        b = [int(x) for x in pieces[1] if x != ""]
+        L = max(len(a), len(b)) + rng.randint(0, 3)
+        pad = [rng.choice([1, 1, 7]) for _ in range(L)]
+        cola = (a + pad)[:L] if len(a) >= len(b) else (a + [1] + pad)[:L]
+        colb = (b + pad)[:L] if len(b) >= len(a) else (b + [1] + pad)[:L]
+        # make the joined strings equal: rebuild from explicit patterns when lengths differ
+        if "".join(map(str, cola)) != "".join(map(str, colb)):
+            cola, colb = [1, 1, 10, 1, 1][:max(3, L)], [11, 1, 0, 1, 1][:max(3, L)]
+        third = [rng.choice([7, 7, 3]) for _ in range(len(cola))]
+        cols = [cola, colb, third]
+        rng.shuffle(cols)
+        ca = [[col[t] for col in cols] for t in range(len(cola))]
+        yield dict(kind="ace", ca=ca, dtype="int64")
+        for d in range(1, len(ca)):
+            yield dict(kind="ami", ca=ca, d=d, dtype="int64")
     for _ in range(ctx.n(300, 3000)):
         T = rng.randint(1, 9)
         N = rng.choice([1, 2, 3, T, T + 3, 8])
